@@ -97,6 +97,9 @@ func buildSpace(full bool) engine.Space {
 		engine.D("pres", pres...),
 		engine.D("op", opsAll...),
 		engine.D("router", rig.Routers...),
+		// where the request parameters travel: all in the body (default), grant_type moved to the URL query of
+		// the POST, or every parameter in the URL query with an empty body (handlers read r.Form / r.PostForm at different places)
+		engine.D("channel", "body", "query-grant", "query-all"),
 		// provider configuration flags and storage capabilities
 		engine.D("post", "on", "off"),
 		engine.D("jwt", "on", "off"),
@@ -109,6 +112,7 @@ func buildSpace(full bool) engine.Space {
 
 type caseT struct {
 	method, shape, app, keys, pres, op, router string
+	channel                                    string
 	post, jwt, refresh, capcc, capte, capdev   bool
 	grants                                     []oidc.GrantType
 	hasKeys, hasSecret                         bool
@@ -138,7 +142,7 @@ func grantsOf(shape string) []oidc.GrantType {
 
 func decode(sp engine.Space, v engine.Vec) caseT {
 	g := func(n string) string { return sp.Get(v, n) }
-	c := caseT{method: g("method"), shape: g("grants"), app: g("app"), keys: g("keys"), pres: g("pres"), op: g("op"), router: g("router"),
+	c := caseT{method: g("method"), shape: g("grants"), app: g("app"), keys: g("keys"), pres: g("pres"), op: g("op"), router: g("router"), channel: g("channel"),
 		post: g("post") == "on", jwt: g("jwt") == "on", refresh: g("refresh") == "on",
 		capcc: g("capcc") == "on", capte: g("capte") == "on", capdev: g("capdev") == "on"}
 	c.grants = grantsOf(c.shape)
@@ -428,6 +432,18 @@ func buildRequest(c caseT) *http.Request {
 			default:
 				f.Set("client_assertion_type", oidc.ClientAssertionTypeJWTAssertion)
 			}
+		}
+	}
+	switch c.channel {
+	case "query-grant":
+		if gt := f.Get("grant_type"); gt != "" {
+			f.Del("grant_type")
+			path += "?grant_type=" + url.QueryEscape(gt)
+		}
+	case "query-all":
+		if len(f) > 0 {
+			path += "?" + f.Encode()
+			f = url.Values{}
 		}
 	}
 	return rig.Req("POST", path, f, h)
@@ -836,6 +852,10 @@ func (w *worker) run(v engine.Vec) engine.Result {
 				fmt.Sprintf("token endpoint refused without an OAuth error document (%s): %s", rule, o.detail))
 		}
 	case mustServe:
+		if c.channel != "body" {
+			// the statement does not say which of body / URL query a parameter may travel in: serving is not demanded there
+			return engine.OK(rule, outcome)
+		}
 		if !o.served {
 			return engine.Bad(rule, outcome, "C05/canonical-request-not-served"+site+"/"+c.method,
 				fmt.Sprintf("properly authenticated, properly registered client was not served: %s", o.detail))
@@ -870,9 +890,9 @@ func TestCheck(t *testing.T) {
 	main := []string{"method", "grants", "app", "keys", "pres", "op", "router"}
 	flags := []string{"post", "jwt", "refresh", "capcc", "capte", "capdev"}
 	groups := [][]string{main, append([]string{"method", "pres", "op", "router"}, flags...)}
-	ks := []int{1, 0}
+	ks := []int{1, 0} // "at most one deviation" now ranges over the six flags and the parameter channel
 	if c.Thorough() {
-		groups, ks = [][]string{main}, []int{len(flags)}
+		groups, ks = [][]string{append(slices.Clone(main), "channel")}, []int{len(flags)}
 	}
 	c.RunE1(engine.E1{
 		Part:   "client-auth-and-grant",
